@@ -184,9 +184,9 @@ MUTANTS = [
     dict(name="interpolate-searchsorted-right", target=_L + "interpolate_position",
          old="np.searchsorted(self.distance, distance) - 1", new='np.searchsorted(self.distance, distance, side="right") - 1', only="interpolate"),
     dict(name="merge-joint-twice", target=_L + "merge_lanelets", old="            idx = 1\n", new="            idx = 0\n", only="merge"),
-    dict(name="merge-length-first-only", target=_L + "merge_lanelets",
+    dict(name="merge-centre-repeats-first-vertex", target=_L + "merge_lanelets",
          old="center_vertices = np.concatenate((pred.center_vertices, suc.center_vertices[idx:]))",
-         new="center_vertices = np.concatenate((pred.center_vertices[:1], pred.center_vertices[1:], suc.center_vertices[-1:]))", only="merge"),
+         new="center_vertices = np.concatenate((pred.center_vertices[:1], pred.center_vertices[:1], suc.center_vertices[idx:]))", only="merge"),
     dict(name="routes-start-revisited", target=_L + "find_lanelet_successors_in_range",
          old="if s in p or s == self.lanelet_id or le >= max_length:", new="if s in p or le >= max_length:", only="routes.succ"),
     dict(name="routes-extend-at-limit", target=_L + "find_lanelet_successors_in_range",
